@@ -476,6 +476,10 @@ func (e *Engine) callFunction(st *State, fn *ssa.Function, args []Value, caps []
 	if fn.Origin() != nil {
 		name = fn.Origin().String()
 	}
+	// the hz module's copy of the intrinsics package is the same package under another path
+	if strings.Contains(name, hzModule+"/internal/zzverif") {
+		name = strings.Replace(name, hzModule+"/internal/zzverif", "internal/zzverif", 1)
+	}
 	if fn.Synthetic == "package initializer" && fn.Pkg != nil {
 		if os.Getenv("SYMGO_TRACE_INIT") != "" {
 			fmt.Fprintf(os.Stderr, "init call %s allow=%v\n", fn.Pkg.Pkg.Path(), allowInit(fn.Pkg.Pkg.Path()))
